@@ -95,6 +95,8 @@ def run_path(nodes, path, bufsize):
                 out, exc = None, "exhausted"
             except BaseException as err:  # pylint: disable=broad-except
                 out, exc = None, repr(err)
+            if complete and exc == "exhausted":
+                return (j, "no more receives than on the path", "recv() called again", "pattern")
             if not complete:
                 if exc != "exhausted":
                     return (j - 1, "call still waiting for data", {"returned": None if out is None else out.hex(), "exc": exc})
@@ -103,7 +105,7 @@ def run_path(nodes, path, bufsize):
             if exc is not None:
                 return (j, {"return": bytes(exp["last"]["data"]).hex()}, {"exception": exc})
             if sock.answers:
-                return (j, "all scripted receives consumed", {"left": len(sock.answers), "returned": out.hex()})
+                return (j, "all scripted receives consumed", {"left": len(sock.answers), "returned": out.hex()}, "pattern")
             if bytes(out) != bytes(exp["last"]["data"]):
                 return (j, {"return": bytes(exp["last"]["data"]).hex()}, {"return": out.hex()})
             if bytes(w.buffer) != bytes(exp["buffer"]) or w.in_waiting() != len(exp["buffer"]):
@@ -153,7 +155,7 @@ def replay_graph(rep, bufsize, maxlen, maxn=2):
         return list(reversed(p))
 
     done = set()
-    npaths = nsteps = bad = 0
+    npaths = nsteps = bad = pattern_dev = 0
     for e in edges:
         if e in done or e[0] not in parent:
             continue
@@ -167,6 +169,11 @@ def replay_graph(rep, bufsize, maxlen, maxn=2):
         nsteps += len(path)
         mism = run_path(nodes, path, bufsize)
         rep.case(digest([x[1] for x in path]))
+        if mism is not None and len(mism) == 4:
+            # another RECEIVE PATTERN than the specification's (more / fewer recv() calls for a client
+            # call): the scripted answers no longer line up; not judged here (envelope on the traces)
+            pattern_dev += 1
+            continue
         if mism is not None and bad < 25:
             bad += 1
             k, exp, obs = mism
@@ -176,7 +183,8 @@ def replay_graph(rep, bufsize, maxlen, maxn=2):
                         "expected": exp, "observed": obs})
     rep.count("traces_validated_against_impl", npaths)
     rep.notes.setdefault("sock_graph_replay", []).append({"bufsize": bufsize, "maxlen": maxlen, "states": len(nodes), "edges": len(edges),
-                                                          "paths": npaths, "steps": nsteps, "edges_covered": len(done)})
+                                                          "paths": npaths, "steps": nsteps, "edges_covered": len(done),
+                                                          "paths_not_judged_recv_pattern": pattern_dev})
     if len(done) < len([e for e in edges if e[0] in parent]):
         raise MachineryFailure("socket graph replay did not cover every edge")
     return npaths
